@@ -6,6 +6,8 @@ CONSTANTS
   BreakStep = 1
   FromInput <- NoDesigns
   ExplicitTargets = FALSE
+  Replacements <- NoRepl
+  Edits <- NoEdits
   Refusals = FALSE
   ZeroHeightRefused = TRUE
   AlignTarget = FALSE
